@@ -3,7 +3,7 @@
    bounded by the leaves - the same sample may feed several leaves (repeated variables), different leaves may be dependent in any way. *)
 From Coq Require Import Reals Lra List Arith Lia Bool Permutation Sorted.
 From PUN Require Import Base.Num Base.Sort Model.Interval Model.Pbox Model.PboxArith Model.PExpr
-  Proofs.ListR Proofs.PboxWF Proofs.WFExpr Proofs.Compose Proofs.ComposeOps Proofs.ComposeMul Proofs.ComposeAll.
+  Proofs.ListR Proofs.PboxWF Proofs.WFExpr Proofs.Compose Proofs.ComposeNaive Proofs.ComposeOps Proofs.ComposeMul Proofs.ComposeAll.
 Import ListNotations.
 Open Scope R_scope.
 
@@ -11,7 +11,7 @@ Inductive fexpr :=
 | FLeaf (l r u : list R)                 (* a p-box (l, r) together with a sample u of the quantity it describes *)
 | FAddc (e : fexpr) (c : R) | FSubc (e : fexpr) (c : R) | FRsubc (c : R) (e : fexpr) | FMulc (e : fexpr) (c : R)
 | FNeg (e : fexpr)
-| FMap (f : R -> R) (dom : R -> bool) (e : fexpr)   (* a nondecreasing map (exp, ...) applied to both bounds *)
+| FMap (f : R -> R) (dom : R -> bool) (e : fexpr)   (* a map nondecreasing on its upward-closed domain (exp, log, sqrt, ...) applied to both bounds *)
 | FBin (o : bop) (e1 e2 : fexpr).
 
 Fixpoint erase (e : fexpr) : pexpr RN :=
@@ -37,9 +37,33 @@ Fixpoint leaves_ok (steps : nat) (e : fexpr) : Prop :=
   match e with
   | FLeaf l r u => length l = steps /\ length r = steps /\ bounds l r u
   | FAddc e _ | FSubc e _ | FRsubc _ e | FMulc e _ | FNeg e => leaves_ok steps e
-  | FMap f _ e => (forall a b, a <= b -> f a <= f b) /\ leaves_ok steps e
+  | FMap f dom e => (forall a b, dom a = true -> dom b = true -> a <= b -> f a <= f b) /\ (forall a b, dom a = true -> a <= b -> dom b = true) /\ leaves_ok steps e
   | FBin _ e1 e2 => leaves_ok steps e1 /\ leaves_ok steps e2
   end.
+
+(* nondecreasing on an upward-closed domain that contains all the values involved *)
+Lemma bounds_map_incr_dom (f : R -> R) (Dm : R -> Prop) (L Rr u : list R) :
+  (forall a b, Dm a -> Dm b -> a <= b -> f a <= f b) -> Forall Dm L -> Forall Dm Rr -> Forall Dm u ->
+  bounds L Rr u -> bounds (map f L) (map f Rr) (map f u).
+Proof.
+  intros Hf DL DR Du (Hu & Hr & H). split; [rewrite !map_length; exact Hu|]. split; [rewrite !map_length; exact Hr|].
+  intros s' Hs' Hss' i Hi. rewrite map_length in Hi.
+  assert (Dsu : Forall Dm (Rsort u)).
+  { apply Forall_forall. intros a Ha. rewrite Forall_forall in Du. apply Du. apply (Permutation_in _ (Permutation_sym (Rsort_perm u))). exact Ha. }
+  assert (Ssu : Rsorted (map f (Rsort u))).
+  { apply nth_Rsorted. intros a b Hab. rewrite map_length, Rsort_length in Hab.
+    rewrite !(nth_indep (map f _) 0 (f 0)) by (rewrite map_length, Rsort_length; lia). rewrite !map_nth. rewrite Forall_forall in Dsu.
+    apply Hf; [apply Dsu, nth_In; rewrite Rsort_length; lia|apply Dsu, nth_In; rewrite Rsort_length; lia|].
+    apply Rsorted_nth; [apply Rsort_sorted|rewrite Rsort_length; lia]. }
+  assert (E : s' = map f (Rsort u)).
+  { apply sorted_perm_unique; auto. eapply Permutation_trans; [exact Hs'|]. apply Permutation_map, Rsort_perm. }
+  subst s'. specialize (H (Rsort u) (Permutation_sym (Rsort_perm u)) (Rsort_sorted u) i Hi).
+  rewrite !(nth_indep (map f _) 0 (f 0)) by (rewrite map_length, ?Rsort_length; lia). rewrite !map_nth.
+  rewrite Forall_forall in DL, DR, Dsu.
+  assert (D1 : Dm (nth i L 0)) by (apply DL, nth_In; lia). assert (D2 : Dm (nth i Rr 0)) by (apply DR, nth_In; lia).
+  assert (D3 : Dm (nth i (Rsort u) 0)) by (apply Dsu, nth_In; rewrite Rsort_length; lia).
+  cbn [T RN] in *. split; apply Hf; auto; lra.
+Qed.
 
 Section X.
 Variable steps : nat.
@@ -65,12 +89,17 @@ Proof.
     apply (pnum_mul_sound steps plo phi p _ c r). apply IH; auto.
   - destruct (peval RN steps plo phi (erase e)) as [p| |] eqn:Ep; cbn [rbind]; try discriminate.
     apply (pneg_sound steps plo phi p _ r). apply IH; auto.
-  - destruct HL as (Hf & HL).
+  - destruct HL as (Hf & Hup & HL).
     destruct (peval RN steps plo phi (erase e)) as [p| |] eqn:Ep; cbn [rbind]; try discriminate. unfold map_eval.
-    match goal with |- (if ?c then _ else _) = _ -> _ => destruct c end; [|discriminate]. intros E.
+    match goal with |- (if ?c then _ else _) = _ -> _ => destruct c eqn:Hdom end; [|discriminate]. intros E.
     specialize (IH p HL eq_refl). destruct (S_len steps p _ IH) as (Hl & Hr & Hu).
+    apply andb_true_iff in Hdom. destruct Hdom as (DL & DR). rewrite forallb_forall in DL, DR.
     unfold punary, mk_staircase in E. eapply mk_sound; [| |left|exact E]; rewrite ?map_length; auto.
-    apply bounds_map_incr; [exact Hf|exact (proj2 IH)].
+    apply (bounds_map_incr_dom f (fun a => dom a = true)); [exact Hf| | | |exact (proj2 IH)].
+    + apply Forall_forall. exact DL.
+    + apply Forall_forall. exact DR.
+    + apply Forall_forall. intros a Ha. destruct (in_some_step _ _ _ a (proj2 IH) Ha) as (j & Hj & Hb).
+      apply (Hup (nth j (fst p) 0)); [apply DL, nth_In; exact Hj|apply Hb].
   - destruct HL as (HL1 & HL2).
     destruct (peval RN steps plo phi (erase e1)) as [p| |] eqn:Ep; cbn [rbind]; try discriminate.
     destruct (peval RN steps plo phi (erase e2)) as [q| |] eqn:Eq; cbn [rbind]; try discriminate.
